@@ -110,6 +110,7 @@ func genConc(r *Rand, n int, tier string, w *bufio.Writer) {
 				{10, func(r *Rand) string { return fmt.Sprintf("flush %02x", 1+r.Intn(200)) }},
 				{5, func(r *Rand) string { return "open " + st(r) }},
 				{3, c1("names")}, {7, c1("psize")},
+				{4, func(r *Rand) string { return "stat " + st(r) }},
 			}
 			for i := 0; i < r.Intn(3); i++ {
 				pre = append(pre, fmt.Sprintf("put %s %d %s", st(r), key(r), hexVal(r)))
